@@ -31,7 +31,9 @@ TRUSTED = [
 ]
 ASSUMPTIONS = [
     "single thread; bodies deterministic; memo bodies do not write signals",
-    "DAG by creation order; static graphs (no node created inside a computation)",
+    "DAG by creation order; the Coq model has static graphs; nodes created inside a computation ('dynamic' family: memo / effect "
+    "bodies that create memos and effects at run time) are checked by the Python cause tracker only (a freshly created "
+    "instance's first run needs no cause)",
     "a memo 'recomputed to an unequal value' is read as 'its compare function reported changed' (always-changed memos count as "
     "changed, a parity-compare memo only when the parity changed); disposing a source is not a change",
     "ImmediateEffect (effect/immediate.rs, not among the anchors; not in the Coq model: 'immediate' cases are oracle-only) "
@@ -69,6 +71,15 @@ def _main_stream(rng, tier):
         prog = X.gen_program(rng, rng.randint(ne + 2, 9), ne, eff_kinds=(5,), allow_wr=False, p_untr=0.05, p_der=0.2, p_always=0.15)
         ops = X.gen_ops(rng, prog, rng.randint(6, 30), w=(0.45, 0.05, 0.5, 0.0, 0.0, 0.0), vals=(0, 1, 1, 2))
         yield dict(case=C.norm([prog, ops]), kind="immediate", compare=False)
+    # nodes created at run time (not modelled: oracle only)
+    for i in range(2000 if tier == "quick" else 20000):
+        we = rng.random() < 0.4
+        prog = X.gen_dynamic_program(rng, rng.choice([1, 1, 2]), with_effects=we)
+        if we:
+            ops = X.gen_ops(rng, prog, rng.randint(6, 30), w=(0.35, 0.04, 0.25, 0.15, 0.16, 0.05), vals=(0, 1, 1, 2)) + [[4]]
+        else:
+            ops = X.gen_ops(rng, prog, rng.randint(6, 30), w=(0.42, 0.05, 0.53, 0, 0, 0), vals=(0, 1, 1, 2))
+        yield dict(case=C.norm([prog, ops]), kind="dynamic", compare=False)
 
 
 def generate(rng, tier):
